@@ -8,3 +8,6 @@ open Neutrino.Store
 #print axioms reopen_ahead
 #print axioms exec_outcome
 #print axioms rollTo_outcome
+#print axioms C08_first_init_counterexample
+#print axioms C08_first_init_false
+#print axioms C08_first_init_partial
